@@ -11,8 +11,16 @@ RELS = R.C15_RELATIONS
 VFILE = "Props/C15.v"
 
 
+def targeted(ctx):
+    # numeric (exact-float) problems whose fully diagonalised block has a degenerate level and an unsorted diagonal
+    for herm in (True, False):
+        ctx.oracle("o_relations[numeric,degenerate unsorted fully-diagonalised block,hermitian=%s]" % herm, R.sweep,
+                   ("basis_perm", "relabel", "rotation", "shift", "conjugation"), ctx.n(6, 40),
+                   base.kw_for(ctx, herm, special="degnum"), parallel=True)
+
+
 def run(ctx):
-    return base.run_common(ctx, VFILE, RELS, "the covariance relations")
+    return base.run_common(ctx, VFILE, RELS, "the covariance relations", targeted)
 
 
 def replay(rp):
